@@ -36,6 +36,7 @@ class Mod:
         self.file = file
         self.types = []          # declared top-level types, textual order
         self.imports = []        # (alias, Mod, line)
+        self.attr_refs = []      # references in module-level attributes
         self.is_mod = True
 
     def path(self):
@@ -251,6 +252,8 @@ class Oracle:
             if c is None:
                 return ("err", "KMissing", n)
             e = c
+        if e.kind == "import":                      # a module by itself is not an object
+            return ("err", "KModule", ref.names[-1])
         return ("ok", e.canon[0], e.canon[1], e)
 
     def member_of_type(self, tinfo, name):
@@ -276,6 +279,8 @@ class Oracle:
         if h[0] == "err":
             return h
         e = h[1]
+        if e.kind == "import":                      # the head alone names an imported module
+            return ("err", "KModule", ref.names[0])
         prev_name = ref.names[0]
         cur = e
         for n in ref.names[1:]:
@@ -287,7 +292,7 @@ class Oracle:
                     return ("cycle",)
                 if cur.kind == "param":                  # a parameter (named directly or through an alias) has no members
                     return ("err", "KNoncomposite", prev_name)
-                if cur.kind in ("import", "type", "ptype", "value"):
+                if cur.kind in ("type", "ptype", "value"):
                     return ("crash-other",)
                 fd = cur.obj
                 ti = self.type_of_field(fd)
@@ -335,7 +340,7 @@ FAULTS = ["undefined-head", "undefined-type", "undefined-member", "dup-field", "
           "dup-param-field", "dup-abbr", "dup-import", "two-scopes-type", "two-scopes-prelude",
           "two-scopes-alias-field", "abbr-outside-nested", "abbr-outside-member", "abbr-outside-static",
           "member-of-array", "member-of-scalar", "member-of-virtual", "field-attr-other-field",
-          "outer-field-from-nested", "param-member"]
+          "outer-field-from-nested", "param-member", "module-as-value", "module-attr-undefined"]
 
 
 class Gen:
@@ -352,7 +357,7 @@ class Gen:
         self.main = Mod("m.emb")
         self.mods = [self.main]
         n_imp = rng.choice([0, 0, 1, 1, 2])
-        if fault in ("dup-import", "two-scopes-alias-field"):
+        if fault in ("dup-import", "two-scopes-alias-field", "module-as-value"):
             n_imp = max(n_imp, 2 if fault == "dup-import" else 1)
         used = []
         for k in range(n_imp):
@@ -572,6 +577,11 @@ class Gen:
                         self.field_refs(fd.typ, sub)
             if not t.anon and r.random() < 0.3:
                 self.add_alias_chain(t)
+        for m in self.mods:
+            if r.random() < 0.25:                   # [foo: Enum.VALUE] before the first type
+                c = self.random_constant(m)
+                if c:
+                    m.attr_refs.append(self.new_ref("const", c, m))
         self.apply_reference_faults()
 
     def field_refs(self, t, fd):
@@ -879,6 +889,13 @@ class Gen:
             x = r.choice(c)
             o = r.choice([y for y in named if y is not x])
             x.attr = self.new_ref("field", [o.name], t, attr_field=x)
+        elif f == "module-as-value":
+            if not self.main.imports:
+                return
+            t = self.fixture()
+            self.add_virtual(t, "field", [self.main.imports[0][0]] + (["xa"] if r.random() < 0.3 else []))
+        elif f == "module-attr-undefined":
+            self.main.attr_refs.append(self.new_ref("const", r.choice([["Zz", "VA"], ["VA"], ["Aa", "ZZ"]]), self.main))
         elif f == "param-member":
             c = [u for u in ts if u.params]
             t = r.choice(c) if c and not use_fx else self.fixture()
@@ -896,6 +913,9 @@ class Gen:
             m.imports[i] = (alias, im, len(self.out))
         if m.imports:
             self.out.append("")
+        for rf in m.attr_refs:
+            self.out.append("[foo: %s]" % rf.text())
+            rf.line = len(self.out)
         order = list(m.types)
         for t in order:
             self.emit_type(t, 0)
